@@ -123,6 +123,18 @@ func Run(P *sx.Program, id, tier string, seed int64, verifDir string, verbose bo
 	var lines []string
 	knownSeen := map[string]bool{}
 	var failedNames []string
+	os.MkdirAll(replayDir, 0o755)
+	if olds, _ := filepath.Glob(filepath.Join(replayDir, id+"_*")); len(olds) > 0 {
+		for _, f := range olds {
+			os.Remove(f)
+		}
+	}
+	type grp struct {
+		first *vc.Outcome
+		insts []string
+	}
+	groups := map[string]*grp{}
+	var gorder []string
 	for _, o := range rep.Failed() {
 		if f := matchFinding(findings, id, o); f != nil {
 			if !knownSeen[f.Obligation] {
@@ -131,15 +143,39 @@ func Run(P *sx.Program, id, tier string, seed int64, verifDir string, verbose bo
 			}
 			continue
 		}
+		base := o.Name
+		inst := ""
+		if i := strings.Index(base, " @"); i >= 0 {
+			base, inst = o.Name[:i], o.Name[i+2:]
+		}
+		g, ok := groups[base]
+		if !ok {
+			g = &grp{first: o}
+			groups[base] = g
+			gorder = append(gorder, base)
+		}
+		// prefer an instance with a model for the replay
+		if len(g.first.Model) == 0 && len(o.Model) > 0 {
+			g.first = o
+		}
+		g.insts = append(g.insts, inst)
+	}
+	for _, base := range gorder {
+		g := groups[base]
+		o := g.first
 		violations++
-		failedNames = append(failedNames, o.Name)
+		failedNames = append(failedNames, base)
 		path := vc.WriteReplay(replayDir, id, o)
 		suffix := ""
 		if len(o.Model) == 0 {
 			suffix = " no-failing-input-found"
 		}
-		fmt.Printf("FAILED obligation %s [%s] at %s: %s\n", o.Name, o.Status, o.Pos, o.Note)
-		lines = append(lines, fmt.Sprintf("VIOLATION property=%s replay=%s obligation=%q%s", id, path, o.Name, suffix))
+		extra := ""
+		if len(g.insts) > 1 {
+			extra = fmt.Sprintf(" (%d instances fail, e.g. %s)", len(g.insts), strings.Join(g.insts[:min(3, len(g.insts))], "; "))
+		}
+		fmt.Printf("FAILED obligation %s [%s] at %s: %s%s\n", o.Name, o.Status, o.Pos, o.Note, extra)
+		lines = append(lines, fmt.Sprintf("VIOLATION property=%s replay=%s obligation=%q%s", id, path, base, suffix))
 	}
 	seenErr := map[string]bool{}
 	for _, e := range rep.Errors {
